@@ -20,3 +20,123 @@ package cafs
 //@   loop 1 invariant [written] 0 <= written && written <= len(p)
 //@   loop 1 invariant [stream] w.count*w.leafSize + w.offset == old(w.count*w.leafSize + w.offset) + written
 //@   loop 1 decreases len(p) - written
+
+// ---- leaf / root hashing configuration (C02: the on-disk BLAKE2b tree convention) --------------
+// H itself (minio/blake2b-simd) is trusted; what is proved is that the hasher is configured with
+// exactly the format's parameters and fed exactly the data.
+
+//@ func keyFromBytes
+//@   call New#1 assert [leaf-config] $0.Size == 64 && $0.Tree.Fanout == 0 && $0.Tree.MaxDepth == 2 && $0.Tree.LeafSize == leafSize && $0.Tree.NodeOffset == n && $0.Tree.NodeDepth == 0 && $0.Tree.InnerHashSize == 64 && $0.Tree.IsLastNode == isLastNode
+//@   call New#1 assert [no-key-salt] len($0.Key) == 0 && len($0.Salt) == 0 && len($0.Person) == 0
+//@   call Write#1 assert [hashes-data] $p == data
+
+//@ func rootHash
+//@   call New#1 assert [root-config] $0.Size == 64 && $0.Tree.Fanout == 0 && $0.Tree.MaxDepth == 2 && $0.Tree.LeafSize == leafSize && $0.Tree.NodeOffset == 0 && $0.Tree.NodeDepth == 1 && $0.Tree.InnerHashSize == 64 && $0.Tree.IsLastNode == true
+//@   call Write#1 assert [whole-key] len($p) == 64
+
+//@ func KeyFromBytes
+//@   call keyFromBytes#1 assert [pass-through] $data == data && $leafSize == leafSize && $n == n && $isLastNode == isLastNode
+//@ func RootHash
+//@   call rootHash#1 assert [pass-through] $leaves == leaves && $leafSize == leafSize
+
+// full leaf number c (1-based) is hashed with (c, false); see Write's call site
+//@ func pFlush
+//@   call KeyFromBytes#1 assert [args] $data == buffer && $leafSize == leafSize && $n == count && $isLastNode == isLastNode
+//@   call KeyFromBytes#1 bind lk = $ret0
+//@   call blobWriter#1 assert [blob] $0 == buffer && $1 == lk
+//@   send flushChan#1 assert [record] $val.count == count && $val.key == lk
+
+//@ func (*fsWriter).flush
+//@   requires w != nil && 0 <= w.offset && w.offset <= len(w.buf)
+//@   call KeyFromBytes#1 assert [partial-data] $data == w.buf[:w.offset]
+//@   call KeyFromBytes#1 assert [partial-leafsize] $leafSize == w.leafSize
+//@   call KeyFromBytes#1 assert [partial-offset] $n == len(w.leaves)
+//@   call KeyFromBytes#1 assert [partial-last] $isLastNode == isLastNode
+//@   call KeyFromBytes#1 bind lk = $ret0
+//@   call writeBlob#1 assert [blob] $data == w.buf[:w.offset] && $key == lk
+//@   ensures [nothing-buffered] old(w.offset) == 0 ==> ret0 == 0 && ret1 == nil && len(w.leaves) == old(len(w.leaves))
+//@   ensures [flushed] ret1 == nil && old(w.offset) > 0 ==> ret0 == old(w.offset) && w.offset == 0 && len(w.leaves) == old(len(w.leaves)) + 1
+
+//@ func (*fsWriter).Flush
+//@   requires wfWriter(w)
+//@   call flush#1 assert [last-node] $isLastNode == true
+//@   call RootHash#1 assert [root-of-leaves] $leaves == w.leaves && $leafSize == w.leafSize
+
+// ---- duplicate detection (C02) ---------------------------------------------------------------------
+//@ func existsAndValidBlob
+//@   requires store != nil
+//@   call GetAttr#1 assert [key] $key == pth && $self == store
+//@   call GetAttr#1 bind at = $ret0
+//@   call GetAttr#1 bind ge = $ret1
+//@   call Checksum#1 assert [of-data] $0 == data
+//@   call Checksum#1 bind crc = $ret0
+//@   ensures [found] found == (ge_set && ge == nil)
+//@   ensures [overwrite] overwrite == (found && (at.Size == 0 || (at.Size > 0 && at.CRC32C > 0 && crc_set && crc != at.CRC32C)))
+
+//@ func (*defaultFs).Put
+//@   requires d != nil && d.store.backend != nil
+//@   call existsAndValidBlob#1 bind found = $ret0
+//@   call existsAndValidBlob#1 bind ow = $ret1
+//@   call writeRootKey#1 bind wk = $ret0
+//@   call Copy#1 bind n = $ret0
+//@   ensures [found-flag] ret1 == nil ==> found_set && ret0.Found == found
+//@   ensures [root-written] ret1 == nil && found_set && (!found || ow) ==> wk_set && wk == nil
+//@   ensures [root-dedup] found_set && found && !ow ==> !wk_set
+//@   ensures [written-size] ret1 == nil ==> n_set && ret0.Written == n
+
+// ---- read-side verification (C03) ------------------------------------------------------------------
+//@ func (*chunkReader).verifyHash
+//@   requires offset >= 0
+//@   call KeyFromBytes#1 assert [args] $data == data && $leafSize == r.leafSize && $n == offset && $isLastNode == isLastNode
+//@   call KeyFromBytes#1 bind computed = $ret0
+//@   call KeyFromBytes#1 bind ke = $ret1
+//@   ensures [match] result == nil ==> ke_set && ke == nil && computed == key
+
+// ---- reader: every freshly fetched leaf is verified with the writer's convention (C03, C01) ---------
+// leaf i (0-based) of N: the trailing partial leaf (i == N-1 and len != leafSize) is hashed with
+// (i, true); every other leaf with (i+1, false) -- exactly what Write/flush do on the way in.
+
+//@ func readLeafFunc$1
+//@   call r.pather#1 pure
+//@   call Bytes#3 bind b3 = $ret0
+//@   call Bytes#4 bind b4 = $ret0
+//@   call verifyHash#1 assert [key] $key == k
+//@   call verifyHash#1 assert [data] b4_set && $data == b4
+//@   call verifyHash#1 assert [last-flag] b3_set && ($isLastNode == (index+1 == len(r.keys) && uint32(len(b3)) != r.leafSize))
+//@   call verifyHash#1 assert [node-offset] $offset == ite($isLastNode, index, index+1)
+//@   call verifyHash#1 bind vh = $ret0
+//@   ensures [verified] r.withVerifyHash && ret2 == nil && ret0 != nil && !ret1 ==> vh_set && vh == nil
+
+//@ func (*chunkReader).Read
+//@   requires r.idx >= 0
+//@   call r.pather#1 pure
+//@   call verifyHash#1 assert [key] $key == key
+//@   call verifyHash#1 assert [data] $data == r.currLeaf
+//@   call verifyHash#1 assert [last-flag] $isLastNode == (r.lastChunk && uint32(len(r.currLeaf)) != r.leafSize)
+//@   call verifyHash#1 assert [node-offset] $offset == ite($isLastNode, r.idx - 1, r.idx)
+//@   call verifyHash#1 bind vh = $ret0
+//@   loop 1 invariant [verified] old(r.withVerifyHash) && r.idx != old(r.idx) ==> vh_set && vh == nil
+//@   ensures [verified] old(r.withVerifyHash) && r.idx != old(r.idx) && (ret1 == nil || ret0 > 0) ==> vh_set && vh == nil
+
+//@ func calculateKeyAndOffset
+//@   requires off >= 0 && leafSize > 0
+//@   ensures [split] index*leafSize + offset == off && 0 <= offset && offset < leafSize && index >= 0
+
+// ---- root blob (C03): the leaf keys are accepted only with a matching trailing checksum ---------------
+//@ func verifiedKeys
+//@   call rootHash#1 bind checksum = $ret0
+//@   call verificationKey#1 bind verify = $ret0
+//@   ensures [checksum] ret1 == nil ==> checksum_set && verify_set && verify == checksum
+
+//@ func leavesForHash
+//@   call bytesFromRoot#1 assert [of-hash] $hash == hash && $blobs == blobs && $prefix == prefix
+//@   call bytesFromRoot#1 bind b = $ret0
+//@   call verifiedKeys#1 assert [verifies-blob] b_set && $data == b && $leafSize == leafSize
+//@   call verifiedKeys#1 bind vk = $ret1
+//@   ensures [verified] ret1 == nil ==> vk_set && vk == nil
+
+//@ func leaves
+//@   loop 1 invariant [step] 0 <= i && i % 64 == 0
+
+//@ func verificationKey
+//@   ensures [long-enough] ret1 == nil ==> len(data) >= 64
